@@ -8,6 +8,8 @@ import (
 	"os"
 	"strconv"
 	"strings"
+	"sync"
+	"time"
 
 	"gitlab.com/gomidi/midi/v2/drivers/midicat"
 
@@ -89,6 +91,69 @@ type rec struct {
 	msg []byte
 }
 
+// lockstep couples two sources: a Read on one side has its data in the caller's buffer and then lets the OTHER side
+// complete a Read of its own before it returns (a goroutine that is descheduled between the copy and the return,
+// made deterministic). Two independent streams decoded at the same time, as with two open in-ports.
+type lockstep struct {
+	mu     sync.Mutex
+	cond   *sync.Cond
+	filled [2]int
+	done   [2]bool
+	stuck  bool
+}
+
+type lockstepSide struct {
+	l     *lockstep
+	side  int
+	b     []byte
+	parts []int
+}
+
+func (s *lockstepSide) Read(p []byte) (int, error) {
+	if len(p) == 0 {
+		return 0, nil
+	}
+	if len(s.b) == 0 {
+		s.finish()
+		return 0, io.EOF
+	}
+	n := 1
+	if len(s.parts) > 0 {
+		n, s.parts = s.parts[0], s.parts[1:]
+	}
+	if n > len(p) {
+		n = len(p)
+	}
+	if n > len(s.b) {
+		n = len(s.b)
+	}
+	l := s.l
+	l.mu.Lock()
+	other := 1 - s.side
+	snap := l.filled[other]
+	copy(p, s.b[:n])
+	s.b = s.b[n:]
+	l.filled[s.side]++
+	l.cond.Broadcast()
+	deadline := time.Now().Add(20 * time.Second)
+	for l.filled[other] == snap && !l.done[other] && !l.stuck {
+		if time.Now().After(deadline) {
+			l.stuck = true
+			break
+		}
+		l.cond.Wait()
+	}
+	l.mu.Unlock()
+	return n, nil
+}
+
+func (s *lockstepSide) finish() {
+	s.l.mu.Lock()
+	s.l.done[s.side] = true
+	s.l.cond.Broadcast()
+	s.l.mu.Unlock()
+}
+
 func init() {
 	mon.Register(&mon.Spec{
 		ID:    "C19",
@@ -101,7 +166,7 @@ func init() {
 			"a malformed line is: odd number of hex digits, a character that is not a hex digit in the hex field (incl. a second separator, which is what a lost terminator produces), no separator, no terminator before end of stream",
 			"lower-case hex digits are not treated as malformed",
 		},
-		Require: []string{"records_decoded", "reader:onebyte", "reader:eof-with-data", "reader:ospipe", "reader:iopipe", "mutant:odd-hex", "mutant:non-hex", "mutant:no-separator", "mutant:no-terminator", "mutant:lost-terminator", "mutants_of_long_lines", "mutant:char-before-terminator", "mutant_reader:bufio", "reader:bufio", "intact_line_after_mutant_decoded"},
+		Require: []string{"records_decoded", "reader:onebyte", "reader:eof-with-data", "reader:ospipe", "reader:iopipe", "mutant:odd-hex", "mutant:non-hex", "mutant:no-separator", "mutant:no-terminator", "mutant:lost-terminator", "mutants_of_long_lines", "mutant:char-before-terminator", "mutant_reader:bufio", "reader:bufio", "intact_line_after_mutant_decoded", "two_stream_sessions"},
 		Run:     runC19,
 	})
 }
@@ -254,6 +319,76 @@ func runC19(c *mon.Ctx) {
 		if i < 2 {
 			c.Sample("stream", string(head(stream, 160)))
 		}
+	})
+
+	// two independent streams decoded at the same time by two goroutines (two open in-ports of the process-backed
+	// driver), their Read calls interleaved in lock step: each stream decodes to its own records
+	c.Each("two-streams", c.N(600, 30_000), func(i int64, r *mon.Rand) {
+		var recs [2][]rec
+		var streams [2][]byte
+		for sd := 0; sd < 2; sd++ {
+			for k, n := 0, r.Range(1, 10); k < n; k++ {
+				x := genRec(r)
+				if len(x.msg) > 40 {
+					x.msg = x.msg[:40]
+				}
+				recs[sd] = append(recs[sd], x)
+				streams[sd] = append(streams[sd], refLine(x.ts, x.msg)...)
+			}
+		}
+		l := &lockstep{}
+		l.cond = sync.NewCond(&l.mu)
+		// a ticker wakes waiters so that the deadline is noticed even if nobody broadcasts
+		stopTick := make(chan struct{})
+		go func() {
+			t := time.NewTicker(500 * time.Millisecond)
+			defer t.Stop()
+			for {
+				select {
+				case <-stopTick:
+					return
+				case <-t.C:
+					l.cond.Broadcast()
+				}
+			}
+		}()
+		var got [2][]rec
+		var errs [2]error
+		var pan [2]any
+		var wg sync.WaitGroup
+		for sd := 0; sd < 2; sd++ {
+			side := &lockstepSide{l: l, side: sd, b: streams[sd]}
+			if i%3 == 1 {
+				side.parts = r.Partition(len(streams[sd]), 4)
+			}
+			wg.Add(1)
+			go func(sd int, side *lockstepSide) {
+				defer wg.Done()
+				defer side.finish()
+				defer func() { pan[sd] = recover() }()
+				got[sd], errs[sd] = decodeAll(side, len(recs[sd])+2)
+			}(sd, side)
+		}
+		wg.Wait()
+		close(stopTick)
+		if l.stuck {
+			c.Inconclusive("two-streams: a lock-step reader waited 20 s for its peer")
+			return
+		}
+		c.Count("two_stream_sessions", 1)
+		c.Eval(1)
+		for sd := 0; sd < 2; sd++ {
+			in := map[string]any{"stream A": string(head(streams[0], 300)), "stream B": string(head(streams[1], 300))}
+			if pan[sd] != nil {
+				c.Violation("panic:two-streams", fmt.Sprintf("decoding stream %d while another stream is decoded panicked: %v", sd, pan[sd]), in, nil, fmt.Sprint(pan[sd]))
+				continue
+			}
+			c.Count("records_decoded", int64(len(got[sd])))
+			if !recsEqual(got[sd], recs[sd]) {
+				c.Violation("roundtrip:two-streams", fmt.Sprintf("two streams decoded at the same time by two goroutines (reads interleaved in lock step): stream %d had %d records, %d were decoded (err %v); first difference: %s", sd, len(recs[sd]), len(got[sd]), errs[sd], firstRecDiff(recs[sd], got[sd])), in, showRecs(recs[sd]), showRecs(got[sd]))
+			}
+		}
+		c.DistinctBytes(streams[0], streams[1])
 	})
 
 	// mutated lines between two intact lines
